@@ -90,6 +90,14 @@ func (s *SourceSplitter) Start(ckpt *snapshotpb.SourceCheckpoint) error {
 		s.cursors[split.ShardId] = split.Cursor
 	}
 
+	// A shard that was read to its end after its reader saved a position for
+	// this checkpoint is missing from the splitter state, which is saved when
+	// the checkpoint completes. Track it again: it is read from the saved
+	// position and its children wait for it.
+	if err := s.retrackShardsWithCursor(ctx); err != nil {
+		return fmt.Errorf("kinesis.SourceSplitter failed to list shards: %w", err)
+	}
+
 	// Include newly discovered shards for assignment
 	err := s.discoverShards(ctx, s.splitTracker.DiscoveryCursor())
 	if err != nil {
@@ -104,6 +112,33 @@ func (s *SourceSplitter) Start(ckpt *snapshotpb.SourceCheckpoint) error {
 	s.shardDiscoveryTicker = time.NewTicker(s.shardDiscoveryInterval)
 	go s.processShardAssignment(ctx)
 
+	return nil
+}
+
+// retrackShardsWithCursor tracks the shards again that have a checkpointed
+// reader position but are not tracked.
+func (s *SourceSplitter) retrackShardsWithCursor(ctx context.Context) error {
+	missing := false
+	for shardID := range s.cursors {
+		if !s.splitTracker.IsKnown(shardID) {
+			missing = true
+		}
+	}
+	if !missing {
+		return nil
+	}
+
+	shards, err := s.listAllShards(ctx, "")
+	if err != nil {
+		return err
+	}
+	var finishedLate []SourceSplitterShard
+	for _, shard := range shards {
+		if _, hasCursor := s.cursors[shard.ShardID]; hasCursor && !s.splitTracker.IsKnown(shard.ShardID) {
+			finishedLate = append(finishedLate, shard)
+		}
+	}
+	s.splitTracker.AddSplits(finishedLate)
 	return nil
 }
 
